@@ -902,7 +902,11 @@ fn main() {
     let mut fail_count = 0u64;
     let mut samples: Vec<Value> = Vec::new();
 
+    let only_family = std::env::var("C24_ONLY_FAMILY").ok(); // debugging aid
     for fam in &families {
+        if only_family.as_deref().is_some_and(|f| f != fam.name) {
+            continue;
+        }
         let mut units = prefixes(fam, 1);
         if let Some(m) = max_units {
             // debugging aid only (evidence then says exhaustive: false)
@@ -1015,7 +1019,7 @@ fn main() {
             "outcome_classes": outcomes,
             "failing_sequences": fail_count,
             "distinct_failure_keys": nfound,
-            "exhaustive": max_units.is_none(),
+            "exhaustive": max_units.is_none() && std::env::var_os("C24_ONLY_FAMILY").is_none(),
             "samples": samples,
         }),
         vec![
